@@ -178,3 +178,10 @@ package vers
 //@   ensures lower-only: interval.exact == "" && interval.exclude == "" && interval.lower != "" && interval.upper == "" ==> len(result) == 1 && result[0] == (interval.lowerInclusive ? ">=" : ">") + vp(interval.lower)   [C04]
 //@   ensures upper-only: interval.exact == "" && interval.exclude == "" && interval.lower == "" && interval.upper != "" ==> len(result) == 1 && result[0] == (interval.upperInclusive ? "<=" : "<") + vp(interval.upper)   [C04]
 //@   ensures exclusion-elsewhere: interval.exact == "" && interval.exclude != "" ==> len(result) == 0   [C04]
+
+// ---- normalisation (C16): at most one output per input constraint
+//@ func normalizeConstraints
+//@   loop 1 invariant len(vcs) <= rangeindex + 1
+//@   loop 3 invariant len(sorted) == rangeindex + 1
+//@   ensures no-more: result1 == nil ==> len(result0) <= len(constraints)   [C16]
+//@   ensures nothing-in-nothing-out: len(constraints) == 0 ==> result1 == nil && len(result0) == 0   [C16]
